@@ -10,7 +10,7 @@ import os
 import random
 
 from vf import monitors, norm
-from vf.common import exps_workload, shard_seeds, gsig, std_shards
+from vf.common import exps_workload, shard_seeds, gsig, std_shards, with_repeated_literals
 from vf.esast import print_program, ref_lts, RefError, Style, Printer, render
 from vf.lts import ssb_lts, equiv, MalformedSsb, has_silent_cycle, pkey
 from vf.macrogen import macro_workload
@@ -212,6 +212,14 @@ def check_compilation(acc, c, ref, renders, main_key, file_of_macro, rel_of, inp
     if missing or extra:
         acc.violation(gsig("position-marks-differ", "not-recorded" if missing else "recorded-but-nowhere"),
                       {"emitted_but_not_recorded": sorted(missing)[:4], "recorded_but_not_emitted": sorted(extra)[:4]}, inp)
+    elif not macro_arg_marks and not sm.get_position_marks__macros() and not file_of_macro:
+        # no macro took part: every literal is recorded once per emitted parameter (the same mark may be written several times)
+        from collections import Counter
+        acc.count("position_mark_multisets_compared")
+        ce, cr = Counter(emitted_marks), Counter(rec)
+        if ce != cr:
+            acc.violation(gsig("position-marks-differ", "count-of-equal-marks"),
+                          {"emitted_more_often": sorted((ce - cr).items())[:4], "recorded_more_often": sorted((cr - ce).items())[:4]}, inp)
     return paired
 
 
@@ -314,7 +322,7 @@ def called_macros(routines, macros):
 
 
 def check_program(acc, prog, name, rnd, layout_seed=None, sample=False):
-    layout = random.Random(layout_seed) if layout_seed is not None else None
+    layout = "dense" if layout_seed == "dense" else random.Random(layout_seed) if layout_seed is not None else None
     r = print_program(prog, None, layout)
     inp = {"name": name, "prog": prog, "layout_seed": layout_seed, "text": r.text}
     try:
@@ -439,6 +447,12 @@ def run_shard(shard, acc):
     for i, (name, prog) in enumerate(exps_workload(shard)):
         check_program(acc, prog, name, rnd, None, sample=(i == 1))
         check_program(acc, prog, name + ":layout", rnd, rnd.randrange(1 << 40))
+        if i % 2 == 0:
+            # the same marks written again at later places, one statement per line and the whole program on one line
+            prog2 = with_repeated_literals(prog, rnd)
+            acc.count("programs_with_repeated_marks")
+            check_program(acc, prog2, name + ":repeated-marks", rnd, None)
+            check_program(acc, prog2, name + ":repeated-marks:one-line", rnd, "dense")
 
 
 def summarize(agg, tier):
